@@ -139,12 +139,12 @@ fn histories(tier: Tier, st: &mut Stats) {
     let sent_len = tier.pick(4, 5);
     let mut tasks = vec![];
     for (fi, f) in fams.iter().enumerate() {
-        let ops = vec![Op::LoadUser(0), Op::LoadUser(1), Op::Clear, Op::Map(0)];
+        let ops = vec![Op::LoadUser(0), Op::LoadUser(1), Op::Clear, Op::Map(0), Op::Map(1)];
         for h in all_seqs(ops.len(), depth) {
             let h: Vec<Op> = h.into_iter().map(|i| ops[i].clone()).collect();
-            // at most one map, and only as the first op (mapped base dictionary)
+            // maps may occur anywhere (the user lexicon must follow every later mapping)
             let maps = h.iter().filter(|o| matches!(o, Op::Map(_))).count();
-            if maps > 1 || (maps == 1 && !matches!(h[0], Op::Map(_))) {
+            if maps > 2 {
                 continue;
             }
             tasks.push((fi, h));
@@ -162,10 +162,8 @@ fn histories(tier: Tier, st: &mut Stats) {
             rs.apply(f, op).unwrap();
         }
         // canonical history reaching the same reference state
-        let mut canon: Vec<Op> = vec![];
-        if matches!(h.first(), Some(Op::Map(_))) {
-            canon.push(h[0].clone());
-        }
+        // canonical history: all mappings first (in order), then the last loaded user lexicon
+        let mut canon: Vec<Op> = h.iter().filter(|o| matches!(o, Op::Map(_))).cloned().collect();
         if let Some(i) = rs.user {
             canon.push(Op::LoadUser(i));
         }
@@ -189,6 +187,9 @@ fn histories(tier: Tier, st: &mut Stats) {
         }
         if h.iter().any(|o| matches!(o, Op::Clear)) && h.iter().position(|o| matches!(o, Op::LoadUser(_))) < h.iter().rposition(|o| matches!(o, Op::Clear)) {
             st.count("histories_clearing_a_loaded_user_lexicon");
+        }
+        if h.iter().position(|o| matches!(o, Op::LoadUser(_))) < h.iter().rposition(|o| matches!(o, Op::Map(_))) && h.iter().any(|o| matches!(o, Op::LoadUser(_))) {
+            st.count("histories_mapping_after_a_user_lexicon_was_loaded");
         }
         if od != oc {
             let idx = od.tokens.iter().zip(&oc.tokens).position(|(x, y)| x != y);
@@ -314,6 +315,7 @@ pub fn run(tier: Tier) -> i32 {
             "system_tokens_reported_with_user_lexicon_loaded",
             "histories_replacing_a_user_lexicon",
             "histories_clearing_a_loaded_user_lexicon",
+            "histories_mapping_after_a_user_lexicon_was_loaded",
             "user_rows_with_ids_in_range",
             "user_rows_with_ids_out_of_range",
             "malformed_user_csvs",
